@@ -21,7 +21,7 @@ RULE = ("in-process servers built by the real make_app/init_app (stub jupyter_se
         "(difftool_args), merge tool with / without output file, closable / not, base_url '/' and '/nb/dime/'. Sequences of 5-40 requests "
         "mixing valid /api/diff, /api/merge, /api/store, /api/closetool over generated notebook files with malformed ones (not JSON, "
         "wrong type, missing key, non-notebook file, missing file, unknown URL, wrong method, API path outside the base_url prefix) and "
-        "store bodies with extra path-like fields (outputfilename, path, fn, cwd: absolute, relative, '..'). Recorded at the client "
+        "store bodies with extra path-like fields (outputfilename, path, fn, cwd: absolute, relative, '..'), and notebook files being saved again between requests (also within the same second as the previous read). Recorded at the client "
         "boundary: call event, status + body; before/after every request a hash snapshot of the server cwd, a decoy directory and the "
         "scratch root; a fixed probe /api/diff is re-issued after every request and compared with its first answer; the first answer is "
         "compared with a fresh-process library computation. Oracles as listed in DESIGN C20. "
@@ -152,6 +152,9 @@ def gen_requests(r, mode, prefix, n):
             reqs.append(("store-malformed", "POST", api + "/api/store", json.dumps(bad).encode()))
         elif c < 0.6:
             reqs.append(("close", "POST", api + "/api/closetool", json.dumps({"exitCode": 0}).encode()))
+        elif c < 0.66:
+            # not a request: the user saves a notebook again (possibly within the same second as the last read)
+            reqs.append(("fs-rewrite", "FS", r.choice(["remote.ipynb", "base.ipynb", "local.ipynb"]), None))
         elif c < 0.68:
             reqs.append(("malformed-notjson", "POST", api + r.choice(["/api/diff", "/api/merge", "/api/store"]), b"{not json"))
         elif c < 0.75:
@@ -228,6 +231,24 @@ def run_sequence(col, r, root, mode, nreq, seqno):
     stopped = False
     try:
         for idx, (kind, method, path, body) in enumerate(reqs):
+            if kind == "fs-rewrite":
+                from ..gen_edit import mutate
+                from ..gen_nb import validate_nb as _val
+                cur = {"remote.ipynb": rm, "base.ipynb": b, "local.ipynb": l}[path]
+                new_nb, _rec = mutate(cur, gen, steps=2)
+                if _val(new_nb):
+                    continue
+                write_nb(os.path.join(case, path), new_nb, r)
+                if path == "remote.ipynb":
+                    rm = new_nb
+                elif path == "base.ipynb":
+                    b = new_nb
+                else:
+                    l = new_nb
+                first_probe = None          # the probe's expected answer is the one for the files now on disk
+                history.append([kind, "FS", path])
+                col.count("files_rewritten_between_requests")
+                continue
             if kind == "store-valid":
                 bd = dict(body)
                 bd["merged"] = json.loads(json.dumps(to_plain(rm)))
